@@ -2,18 +2,18 @@ CONSTANTS
   NH = 2
   MaxBufs = 3
   Statics <- cStatics
-  OpKinds <- cOpsCore
+  OpKinds <- cOpsAll
   StrArgs <- cStrS3
   CharArgs <- cChars
-  Caps = {0, 17, 30}
+  Caps = {0, 1, 17, 30}
   IdxMode = "few"
-  RetainPats <- cRetain
-  ItemSeqs <- cItems
-  Hints = {0}
+  RetainPats <- cRetainP
+  ItemSeqs <- cItems2
+  Hints = {0, 20}
   FailMode = 0
-  PanicMode = 0
-  Seeds <- cSeedsEmpty
-  MaxSteps = 3
+  PanicMode = 1
+  Seeds <- cSeedsAll
+  MaxSteps = 2
 SPECIFICATION Spec
 VIEW View
 INVARIANTS ModelTypeOK NoUninitRead
